@@ -383,6 +383,13 @@ def build_variant(repo, with_step):
     if not with_step:
         # drop every step(...) clause, keep the invariant clauses
         u.text = re.sub(r',\s*\n\s*step\([^\n]*\)', '', u.text)
+        # the only loop of the writer (escaping in attr_quoted) keeps the invariant
+        u.body_start((LAW, 'attr_quoted'), '        let ghost g_first = self.0.is_first; let ghost g_newlines = self.0.add_newlines; let ghost g_err = self.0.error is Some;')
+        try:
+            u.loop((LAW, 'attr_quoted'), 0, '''            invariant
+                this.0.inv(), this.0.is_first == g_first, this.0.add_newlines == g_newlines, g_err ==> this.0.error is Some,''')
+        except ExtractError:
+            pass
         u.finish(HEAD)
         return u
     # ---- proofs of the prefix clause: ghost entry state + one lemma_block per guarded write -----
